@@ -117,7 +117,7 @@ def run(tier, seed):
         "(state, refused call) pairs (frontier states are pairwise distinct by construction)")
     found = {}
     deadline = time.time() + (900 if tier == "quick" else 6000)
-    scns = scenarios.STRUCTURAL + [scenarios.S6, scenarios.S7, scenarios.S8] + scenarios.naming_scenarios()
+    scns = scenarios.STRUCTURAL + [scenarios.S6, scenarios.S7, scenarios.S8, scenarios.S15] + scenarios.naming_scenarios()
     k = seed % len(scns)
     for scn in scns[k:] + scns[:k]:
         engine_a.explore(ID, scn, tier, cov, found, deadline, count="transitions")
